@@ -69,7 +69,9 @@ fn main() {
         "C07" => run_check::<engines::prefix::PrefixCheck>(opts),
         "C18" => run_check::<engines::addr::AddrCheck>(opts),
         "C09" => run_check::<engines::bank::BankCheck>(opts),
+        #[cfg(feature = "builder")]
         "C20" => run_check::<engines::builder::BuilderCheck>(opts),
+        "C19" => run_check::<engines::tree::det::DetCheck>(opts),
         "C01" | "C02" | "C03" | "C04" | "C05" | "C08" | "C10" | "C11" | "C12" | "C13" => run_check::<engines::tree::TreeCheck>(opts),
         _ => {
             eprintln!("unknown property id {}", id);
